@@ -513,6 +513,7 @@ func propC01(c *Ctx) {
 
 func propC10(c *Ctx) {
 	c.Clauses = append(c.Clauses,
+		"ExportGenesis: every Bridge record carries the getter's next_l1_sequence (stored value with a nil read error, or the default 1)",
 		"every handler other than CreateBridge reaches a per-bridge store write or a bank transfer only on paths where BridgeConfigs.Get(req.BridgeId) succeeded (bridge exists)",
 		"each successful deposit calls IncreaseNextL1Sequence(req.BridgeId) exactly once; the helper stores loaded+1 (default 1) under the same key and returns the loaded value; NextL1Sequences has no other runtime writer",
 		"exactly one initiate_token_deposit event per success, attribute provenance equal to the request and to the value moved; the response carries the same sequence",
